@@ -790,8 +790,11 @@ func (s *Server) pushUpdateLatest(data *tracerData) error {
 	// calculate diff
 	update := calcUpdate(s.syncSchema, data, s.lastPushData, s.syncShallowClocks)
 
-	// nothing to push
-	if len(update.Indexes) == 0 {
+	// nothing to push (a queue-tick-only change still has to be sent, as it's
+	// memorized as pushed and is a part of the checksum)
+	if len(update.Indexes) == 0 && update.QueueTick == 0 &&
+		update.MachTick == 0 {
+
 		return nil
 	}
 
